@@ -272,3 +272,82 @@ Fixpoint exec_node (c : cfg) (pp : str) (po : option opts) (t : tree) : list (N 
   end.
 Definition exec_forest (c : cfg) (pp : str) (po : option opts) (l : list tree) :=
   flat_map (exec_node c pp po) l.
+
+(** * C12: the registry said directly ("flat" semantics, no tree).
+
+    Every entry is found at its module path; every path component that is a
+    [#[divan::bench_group]] module contributes its display name and options;
+    a generic function's own [GroupEntry] does so for its instantiations.
+    This is what the property promises; [Proofs/Flat.v] relates it to the tree. *)
+Definition group_key (g : group_entry) : list str :=
+  module_components (g_meta g) ++ [m_raw (g_meta g)].
+
+Definition is_module_group (g : group_entry) : bool :=
+  match g_generic g with None => true | Some _ => false end.
+
+Definition path_eqb (a b : list str) : bool := list_eqb str_eqb a b.
+
+(** The [bench_group] module with the given raw path, if any. *)
+Definition find_module_group (groups : list group_entry) (key : list str) : option group_entry :=
+  find (fun g => is_module_group g && path_eqb (group_key g) key) groups.
+
+(** For each component of an entry's raw path: the group standing there. *)
+Fixpoint module_chain (groups : list group_entry) (pre : list str) (comps : list str)
+  : list (str * option group_entry) :=
+  match comps with
+  | [] => []
+  | c :: tl => (c, find_module_group groups (pre ++ [c])) :: module_chain groups (pre ++ [c]) tl
+  end.
+
+Definition entry_chain (groups : list group_entry) (e : any_entry) : list (str * option group_entry) :=
+  match e with
+  | ABench b => module_chain groups [] (module_components (b_meta b))
+  | AGeneric g ge =>
+      module_chain groups [] (module_components (g_meta g))
+      ++ [(m_raw (g_meta g), Some g)]
+      ++ match ge_kind ge with
+         | GConst (Some t) _ => [(type_display t, None)]
+         | _ => []
+         end
+  end.
+
+Definition chain_display (x : str * option group_entry) : str :=
+  match snd x with Some g => m_display (g_meta g) | None => strip_raw (fst x) end.
+Definition chain_opts (x : str * option group_entry) : option opts :=
+  match snd x with Some g => m_opts (g_meta g) | None => None end.
+
+Definition chain_path (ch : list (str * option group_entry)) : str :=
+  fold_left (fun p x => join_path p (chain_display x)) ch [].
+Definition chain_options (ch : list (str * option group_entry)) : option opts :=
+  fold_left (fun o x => merge_opts o (chain_opts x)) ch None.
+
+Definition flat_case (c : cfg) (groups : list group_entry) (e : any_entry)
+  : list (N * str * option (N * value)) :=
+  let ch := entry_chain groups e in
+  let path := join_path (chain_path ch) (entry_display e) in
+  let options := merge_opts (chain_options ch) (m_opts (entry_meta e)) in
+  if leaf_ignored c options then []
+  else match entry_runner e with
+       | RPlain => if c_filter c path then [(entry_id e, path, None)] else []
+       | RArgs _ vals =>
+           filter (fun x => c_filter c (snd (fst x)))
+                  (flat_map (arg_case e vals path) (index_list (length vals)))
+       end.
+
+Definition flat_exec (c : cfg) (benches : list bench_entry) (groups : list group_entry) :=
+  flat_map (flat_case c groups) (all_entries benches groups).
+
+(** Boolean specification for C12, evaluated on what the implementation ran:
+    the executed (path, entry, argument) triples, rendered as strings by the
+    driver, are the flat semantics' as multisets. *)
+Definition c12_flat_sb (expected got : list str) : bool := multiset_eqb expected got.
+
+(** Keys of all group entries are distinct (always true of module groups in a
+    Rust program; a generic function may share its name with a sibling module). *)
+Fixpoint nodup_paths (l : list (list str)) : bool :=
+  match l with
+  | [] => true
+  | x :: tl => negb (existsb (path_eqb x) tl) && nodup_paths tl
+  end.
+Definition group_keys_distinct (groups : list group_entry) : bool :=
+  nodup_paths (map group_key groups).
